@@ -1,11 +1,13 @@
 (* C06 — No input crashes or hangs the analyser, and a bad file never hides the others.
    What a theorem can carry here: (a) the per-file loops of the services isolate a failing file (any analyse function,
    any file list, any position); (b) the exit status is 0 or 1; (c) every model function of this development is a total
-   Gallina function, so the modelled analyses terminate on every AST; (d) NEGATIVE: the longest-import-chain computation
-   is exponential on dense DAGs (finding F21) — the "time proportional to input size" clause is refuted for it.
+   Gallina function, so the modelled analyses terminate on every AST; (d) the longest-import-chain computation
+   (calculateMaxDepth): finding F21 (2^(n-1) calls on a dense DAG) is repaired — the value is unchanged on every graph, the
+   height pass is linear on every graph, the whole computation is linear on every acyclic graph; what is still enumerated
+   path by path are the modules from which an import cycle can be reached (stated below, not hidden).
    Not modelled (decided by the malformed-input runs of harness/c06.py, a test): tree-sitter, the Go runtime, the OS. *)
-From Coq Require Import List Arith.
-From PV Require Import Service.Isolation Deps.DepthCost.
+From Coq Require Import List Arith NArith.
+From PV Require Import Service.Isolation Deps.DepthCost Deps.DepthCostProofs.
 Import ListNotations.
 
 Theorem C06_isolation :
@@ -25,12 +27,66 @@ Proof. exact items_in_file_order. Qed.
 Theorem C06_exit_status : forall b, exit_code b = 0 \/ exit_code b = 1.
 Proof. exact exit_code_01. Qed.
 
-(* refutation of the time bound for calculateMaxDepth: at least 2^(n-1) calls on the complete DAG with n modules *)
-Theorem C06_depth_exponential_refuted : forall n, 1 <= n ->
+(* ---- calculateMaxDepth (service/system_analysis_service.go), after the repair of finding F21 ----
+   [succ m] = dependencies of module m, [nodes] = the modules, both in ANY order (Go maps); [closed]: the dependencies of a
+   module of the graph are modules of the graph (DependencyGraph.AddDependency guarantees it). *)
+
+(* the repair does not change the result: with the height table calculateMaxDepth returns what the enumeration of simple
+   paths returned, on EVERY graph — import cycles included (C12 and C05 are about this value) *)
+Theorem C06_max_depth_value_unchanged : forall succ nodes, closed succ nodes ->
+  max_depth_new succ nodes = max_depth succ nodes.
+Proof. exact max_depth_value_unchanged. Qed.
+
+(* acyclicChainHeights: at most modules + imports calls of visit, on EVERY graph *)
+Theorem C06_height_pass_linear : forall succ nodes, closed succ nodes ->
+  snd (acyclic_chain_heights succ nodes) <= length nodes + edge_count succ nodes.
+Proof. exact visit_all_cost. Qed.
+
+(* FULL statement wanted: the number of steps of calculateMaxDepth is bounded by a constant times modules + imports on every
+   graph.  Proved for every ACYCLIC graph (every module then has a height and calculateDepthFromModule is called once per
+   module); false in general, see C06_depth_cyclic_enumeration_observation. *)
+Theorem C06_depth_linear_on_acyclic_partial : forall succ nodes rank, ranked succ nodes rank ->
+  max_depth_steps succ nodes <= 2 * length nodes + edge_count succ nodes.
+Proof. exact ranked_steps_linear. Qed.
+
+(* the input that exposed F21, the complete DAG with n modules and n(n-1)/2 imports: at most 2n + n(n-1)/2 steps now ... *)
+Theorem C06_depth_complete_dag_linear : forall n,
+  2 * max_depth_steps (complete_succ n) (seq 0 n) <= 4 * n + n * (n - 1).
+Proof. exact complete_dag_steps. Qed.
+
+(* ... where the enumeration alone (the code before the repair) made at least 2^(n-1) calls from module 0 *)
+Theorem C06_depth_enumeration_alone_exponential : forall n, 1 <= n ->
   2 ^ (n - 1) <= snd (depth_from (S n) (complete_succ n) [] 0 0).
 Proof. exact depth_exponential. Qed.
+
+(* on every graph the new code makes no more calls of calculateDepthFromModule than the enumeration did *)
+Theorem C06_depth_never_more_calls : forall succ nodes,
+  max_depth_steps succ nodes <= snd (acyclic_chain_heights succ nodes) + max_depth_steps_enum succ nodes.
+Proof. exact new_calls_le_enum. Qed.
+
+(* STILL TRUE of the repaired code: modules from which an import cycle can be reached are enumerated path by path.
+   n modules that all import each other (n(n-1) imports), n = 4, 5, 6, 7: *)
+Theorem C06_depth_cyclic_enumeration_observation :
+  map (fun n => N.of_nat (max_depth_steps (clique_succ n) (seq 0 n))) [4; 5; 6; 7] = [212; 1330; 9822; 82250]%N.
+Proof. exact clique_steps. Qed.
+
+(* which modules get a height: exactly those that reach no import cycle, with the length of the longest chain below them —
+   by computation on all 4096 graphs with 4 modules (unbounded: only the acyclic case, inside C06_depth_linear_on_acyclic_partial) *)
+Theorem C06_heights_exact_bounded : forallb (fun k => heights_exact_on 4 (N.of_nat k)) (seq 0 4096) = true.
+Proof. exact heights_exact_bounded4. Qed.
+
+(* the hypotheses are satisfiable: the complete DAG is closed and ranked *)
+Example C06_ranked_satisfiable : forall n, ranked (complete_succ n) (seq 0 n) (fun i => n - 1 - i).
+Proof. exact complete_ranked. Qed.
 
 Print Assumptions C06_isolation.
 Print Assumptions C06_results_are_per_file.
 Print Assumptions C06_exit_status.
-Print Assumptions C06_depth_exponential_refuted.
+Print Assumptions C06_max_depth_value_unchanged.
+Print Assumptions C06_height_pass_linear.
+Print Assumptions C06_depth_linear_on_acyclic_partial.
+Print Assumptions C06_depth_complete_dag_linear.
+Print Assumptions C06_depth_enumeration_alone_exponential.
+Print Assumptions C06_depth_never_more_calls.
+Print Assumptions C06_depth_cyclic_enumeration_observation.
+Print Assumptions C06_heights_exact_bounded.
